@@ -187,7 +187,7 @@ fn g_tree() -> BS<Tree> {
 
 /// Visit every type of the family with its strategy.
 /// number of `visit` calls made by [`for_each_type`]
-pub const N_FAM_TYPES: usize = 52;
+pub const N_FAM_TYPES: usize = 55;
 
 pub fn for_each_type<V: TypeVisitor>(v: &mut V) {
     v.visit::<i8>("i8", ints(i8::MIN as i128, i8::MAX as i128));
@@ -229,6 +229,21 @@ pub fn for_each_type<V: TypeVisitor>(v: &mut V) {
     v.visit::<BTreeMap<String, Vec<u8>>>("BTreeMap<String,Vec<u8>>", btree_map(g_str(), vec(any::<u8>(), 0..3), 0..5).boxed());
     v.visit::<BTreeMap<Key, Option<u8>>>("BTreeMap<Key,Option<u8>>", btree_map(g_key(), proptest::option::of(any::<u8>()), 0..4).boxed());
     v.visit::<HashMap<String, i32>>("HashMap<String,i32>", hash_map(g_str(), any::<i32>(), 0..5).boxed());
+    // std types whose Serialize/Deserialize impls ask the format whether it is
+    // human readable (text formats are: an address is a string there)
+    v.visit::<std::net::Ipv4Addr>("Ipv4Addr", any::<[u8; 4]>().prop_map(std::net::Ipv4Addr::from).boxed());
+    v.visit::<std::net::IpAddr>(
+        "IpAddr",
+        prop_oneof![
+            any::<[u8; 4]>().prop_map(|b| std::net::IpAddr::V4(std::net::Ipv4Addr::from(b))),
+            any::<[u16; 8]>().prop_map(|b| std::net::IpAddr::V6(std::net::Ipv6Addr::from(b))),
+        ]
+        .boxed(),
+    );
+    v.visit::<Vec<std::net::SocketAddrV4>>(
+        "Vec<SocketAddrV4>",
+        vec((any::<[u8; 4]>(), any::<u16>()).prop_map(|(b, p)| std::net::SocketAddrV4::new(std::net::Ipv4Addr::from(b), p)), 0..3).boxed(),
+    );
     v.visit::<BTreeMap<NameKey, u8>>("BTreeMap<NameKey,u8>", btree_map(g_str().prop_map(NameKey), any::<u8>(), 0..4).boxed());
     v.visit::<BTreeMap<IdKey, String>>("BTreeMap<IdKey,String>", btree_map(any::<u16>().prop_map(IdKey), g_str(), 0..4).boxed());
     v.visit::<BTreeMap<WrappedKey, Option<i8>>>("BTreeMap<WrappedKey,Option<i8>>", btree_map(g_key().prop_map(WrappedKey), proptest::option::of(any::<i8>()), 0..4).boxed());
